@@ -92,6 +92,15 @@ TEMPLATES = [
     ("try_catch_pat", "try throw {a} catch [p, q] -> 1", 1), ("throw", "throw {a}", 1),
     ("return_top", "return {a}", 1), ("break_top", "break {a}", 1), ("continue_top", "continue", 0),
     ("freeze", "(freeze \\p -> p + {a})({b})", 2), ("eval", "eval({a})", 1),
+    # a second struct of the same name (declared in an inner scope) with fewer / more fields: accessors of one applied
+    # to instances of the other must raise, whatever the field index
+    ("struct_shadow_call", "struct P3 (px3, py3, pz3); g := pz3; mk := \\-> (struct P3 (px3); P3({a})); g(mk())", 1),
+    ("struct_shadow_index", "struct P3 (px3, py3, pz3); g := pz3; mk := \\-> (struct P3 (px3); P3({a})); mk()[g]", 1),
+    ("struct_shadow_assign", "struct P3 (px3, py3, pz3); g := py3; mk := \\-> (struct P3 (px3); P3({a})); q := mk(); q[g] = {b}; q", 2),
+    ("struct_shadow_opassign", "struct P3 (px3, py3, pz3); g := pz3; mk := \\-> (struct P3 (px3); P3({a})); q := mk(); q[g] append= {b}; q", 2),
+    ("struct_shadow_more", "struct P3 (px3); g := px3; mk := \\-> (struct P3 (px3, py3, pz3); P3({a}, 6, 7)); [g(P3({a})), try g(mk()) catch e -> \"E\"]", 1),
+    ("struct_other_accessor", "struct A1 (u1, u2, u3); struct A2 (w1); [try u3(A2({a})) catch e -> \"E\", try A2({a})[u2] catch e -> \"E\"]", 1),
+    ("struct_empty", "struct E0 (); struct A1 (u1); [E0(), try u1(E0()) catch e -> \"E\", try E0({a}) catch e -> \"E\"]", 1),
     ("backref", "\\1", 0), ("import_missing", 'import "/nonexistent/x.noul"', 0),
 ]
 OPASSIGN_FUNCS = ["append", "++", "max", "$", "|.", "||", ".+", "-", "*", "//", "%", "^", "&", ">>", "!!", "zip", "**"]
